@@ -212,18 +212,31 @@ def chk_data_nonempty(F, E, body, s):
     pdom = pd.postdominators()
     if not any(f.bb in pdom.get(0, set()) for f in fcalls):
         return False
-    # in finish(): the `elements.len() == 0` arm pushes
-    pushes = fin.calls_to("DataParser::push_current_element")
-    for b in sorted(fin.reachable()):
-        t = fin.term(b)
-        if t["k"] != "switch":
+    # in finish(): every path that reaches `is_finished = true` either pushes an element or went through the
+    # "elements is not empty" arm of an emptiness test on `elements`
+    from lib import path_records
+    saw = 0
+    for r in path_records(fin):
+        sets_finished = any(st["k"] == "assign" and [p for p in st["place"]["proj"] if p["k"] == "field"] and
+                            [p for p in st["place"]["proj"] if p["k"] == "field"][-1].get("name") == "is_finished"
+                            for b in r["path"] for st in fin.blocks[b]["stmts"])
+        if not sets_finished:
             continue
-        e = strip_expr(fin.expr(t["discr"]))
-        if e[0] == "binop" and e[1] in ("Eq",) and "elements" in show(e[2]) and "len" in show(e[2]):
-            ft = bool_switch_true_target(fin, b)
-            if ft and any(fin.dominates(ft[1], p.bb) for p in pushes):
-                return True
-    return False
+        saw += 1
+        pushed = any(sfx(c.callee, "DataParser::push_current_element") for c in r["calls"])
+        nonempty = False
+        for (txt, ps, val, subj) in r["decisions"]:
+            if "elements" in txt and "is_empty" in txt and val is False:
+                nonempty = True
+            if "elements" in txt and "len(" in txt:
+                e = strip_expr(subj)
+                if e[0] == "binop" and e[1] == "Eq" and val is False:
+                    nonempty = True
+                if e[0] == "binop" and e[1] in ("Ne", "Gt") and val is True:
+                    nonempty = True
+        if not (pushed or nonempty):
+            return False
+    return saw > 0
 
 
 def chk_in_loop_over_same_vec(F, E, body, s):
